@@ -352,6 +352,8 @@ def case_exact(case, col=None, exact=True):
         return
     na, nb = normalise(ra[1], R, exact), normalise(rb[1], R, exact)
     if model[0] == "err":
+        if not exact and _absorbed_to_zero(tree):
+            raise Skip("float_absorption_to_zero")  # -2 + (2 + 2e-116) is exactly 0.0 in floats: pint sees a bare zero, the exact model does not
         if "DimensionalityError" in model[1]:
             raise Violation("accepted_dimension_mismatch", f"{_render(tree)}: returned {_short(ra)} although operands of +,-,//,% or an ordering differ in dimension")
         raise Violation("accepted_invalid_expression", f"{_render(tree)}: returned {_short(ra)}; model: {model[1]}")
@@ -451,6 +453,33 @@ def err_bound(node, R, mult=1.0):
             _in_float_range(va / vb)
         return va / vb, ea / abs(vb) + abs(va) * eb / (vb * vb)
     return va - vb, ea + eb  # comparisons: the difference decides
+
+
+def _absorbed_to_zero(node):
+    """does some number-only subtree evaluate to exactly 0.0 in float arithmetic although its exact value is not zero?"""
+    def ev(n):
+        # (float value, exact value) of a number-only subtree, or None
+        t = n["t"]
+        if t == "num":
+            return float(n["n"]), Fraction(n["n"])
+        if t == "un":
+            r = ev(n["a"])
+            return None if r is None else ((-r[0], -r[1]) if n["op"] == "neg" else (abs(r[0]), abs(r[1])))
+        if t in ("q", "pow", "root"):
+            return None
+        a, b = ev(n["a"]), ev(n["b"])
+        if a is None or b is None:
+            return None
+        try:
+            f = {"add": lambda x, y: x + y, "sub": lambda x, y: x - y, "mul": lambda x, y: x * y, "div": lambda x, y: x / y}.get(n["op"])
+            return None if f is None else (f(a[0], b[0]), f(a[1], b[1]))
+        except (ZeroDivisionError, OverflowError):
+            return None
+
+    r = ev(node)
+    if r is not None and r[0] == 0 and r[1] != 0:
+        return True
+    return any(_absorbed_to_zero(node[k]) for k in ("a", "b") if k in node and isinstance(node[k], dict))
 
 
 def _in_float_range(r):
